@@ -201,6 +201,36 @@ Theorem C18_handshake_ok_not_v031_same_genesis : forall l versions st v,
 Proof. exact handshake_ok_not_v031_same_genesis. Qed.
 Print Assumptions C18_handshake_ok_not_v031_same_genesis.
 
+(** The mapping version -> handshaker of GetVersionedHandshaker (its concrete result type is
+    compared with [versioned_handshaker] for every version value on every run; the whole-path
+    theorems [C18_inbound_ok_same_chain] and [C18_wire_inbound_ok_same_chain] run the check
+    selected by this mapping, so they describe the code only as far as the mapping is tied). *)
+Theorem C18_run_handshaker_via_kind : forall v l st,
+  run_handshaker v l st =
+  match versioned_handshaker v with
+  | None => HsNoVersion
+  | Some k => match check_of_kind k l st with None => HsOk v | Some e => HsRefused v e end
+  end.
+Proof. exact run_handshaker_via_kind. Qed.
+Print Assumptions C18_run_handshaker_via_kind.
+
+(** Every version that exchanges the genesis hash is mapped to a handshaker that checks it. *)
+Theorem C18_versioned_handshaker_checks_genesis : forall v k l st,
+  In v [v032; v033; v200] -> versioned_handshaker v = Some k ->
+  check_of_kind k l st = None ->
+  st_genesis st = l_genesis l /\ st_peer_id st = l_peer_id l /\
+  exists rc, chain_id_read (st_chain_id st) = Some rc /\
+    (rc = l_chain_id_at l (st_best_height st) \/ rc = l_static_chain_id l).
+Proof. exact versioned_handshaker_checks_genesis. Qed.
+Print Assumptions C18_versioned_handshaker_checks_genesis.
+
+Theorem C18_versioned_handshaker_table :
+  versioned_handshaker v031 = Some HK030 /\ versioned_handshaker v032 = Some HK032 /\
+  versioned_handshaker v033 = Some HK033 /\ versioned_handshaker v200 = Some HK200 /\
+  forall v, ~ In v accepted_inbound_versions -> versioned_handshaker v = None.
+Proof. exact versioned_handshaker_table. Qed.
+Print Assumptions C18_versioned_handshaker_table.
+
 (** F20.  The still accepted 0.3.1 handshaker checks chain id and peer id only ... *)
 Theorem C18_handshake_v031_partial : forall l st,
   check_remote_status_v031 l st = None ->
